@@ -115,7 +115,9 @@ def run_batch(cases: list[tuple[dict, dict, dict]], consts: dict, flavour_of=lam
         impls.append(out)
         cmd = real.guard_cmd(pol, req, cfg, consts, proto.build_oracle(pol, req, cfg.get("resolver"), cfg.get("checker")))
         if with_impl_spec and "ok" in out:
-            cmd["impl"] = {"allowed": out["ok"]["allowed"], "effect": out["ok"]["effect"], "obligations": out["ok"]["obligations"]}
+            d = out["ok"]
+            cmd["impl"] = {"allowed": d["allowed"], "effect": d["effect"], "obligations": d["obligations"],
+                           "rule_id": d["rule_id"], "policy_id": d["policy_id"], "reason": d["reason"]}
         cmds.append(cmd)
     answers = proto.run_driver(cmds)
     res = []
